@@ -207,3 +207,84 @@ def apply_fnptr(rw, unsupported):
     rw.note("R28t", nt)
     rw.note("R28b", nb)
     rw.note("R28c", nc)
+
+
+# ---------------------------------------------------------------------------------------------------------------------
+# R28p (additive, opt-in `:: fnptr=types` on `fn` and `struct` directives; `fnptr=1` is untouched by it)
+#
+# A function-pointer type WITH ONE PARAMETER that occurs in TYPE position only - typically inside an associated
+# type of a trait impl, `type Future = MapErr<S::Future, fn(S::Error) -> Self::Error>;` (futures-util needs a nameable
+# type for the error-mapping function) - and is never called, stored in a field or compared in the extracted text:
+#
+#     fn(A) -> B      ->   FnPtr1<A, B>            fn() -> T / Box<fn() -> T>   ->   FnPtr0<T>   (as R28t)
+#
+# `FnPtr1<A, B>` is a prelude stand-in (vx/prelude/fnptr1.rs): an `external_body` struct with one uninterpreted ghost
+# relation `maps(a, b)` ("applied to a, the function returns b") and NO exec method at all - the extracted text cannot
+# call it.  A value of that type is only ever made by a prelude constructor that takes the fn item / closure itself
+# (e.g. the stand-in of `TryFutureExt::map_err`) and records `maps` from the callable's own contract; this is where the
+# Rust compiler coerces the fn item to the pointer in the real code.
+# The rule touches type text only (it is applied after R10b has substituted `Self::X` by its definition, so that a
+# function-pointer type inside an associated type is seen); no call syntax, no identifier is rewritten.
+# Refused (`Unsupported`: the fn is stubbed): two or more parameters, a named parameter (`fn(x: A) -> B`), no return
+# type, `unsafe` / `extern` function pointers, a `for<'a>` binder.
+# ---------------------------------------------------------------------------------------------------------------------
+def _split_top_commas(m, t):
+    parts, depth, st = [], 0, 0
+    for k, c in enumerate(m):
+        if c in "<([":
+            depth += 1
+        elif c == ">" and k > 0 and m[k - 1] == "-":
+            pass
+        elif c in ">)]":
+            depth -= 1
+        elif c == "," and depth == 0:
+            parts.append(t[st:k])
+            st = k + 1
+    parts.append(t[st:])
+    return [x.strip() for x in parts if x.strip()]
+
+
+def apply_types1(t, what, unsupported):
+    """R28p on the text t; returns (new text, number of function-pointer types replaced)"""
+    n = 0
+    while True:
+        m = mask(t)
+        hits = list(_FN_ANY.finditer(m))
+        if not hits:
+            return t, n
+        mm = hits[-1]  # innermost / last first: a function-pointer type may occur inside another one's return type
+        a = mm.start()
+        before = m[:a].rstrip()
+        if re.search(r"(?:\bunsafe|\bextern(?:\s*\"[^\"]*\")?|for\s*<[^<>]*>)$", before) or re.search(r"\bextern\s*$", mask(t[:a]).rstrip().rstrip('"').rstrip()):
+            raise unsupported("unsupported construct: unsafe / extern / higher-ranked function-pointer type (R28p) in %s" % what)
+        po = mm.end() - 1
+        pc = match_close(m, po)
+        params = _split_top_commas(m[po + 1:pc], t[po + 1:pc])
+        arrow = re.match(r"\s*->\s*", m[pc + 1:])
+        if not arrow:
+            raise unsupported("unsupported construct: function-pointer type without return type (R28p) in %s" % what)
+        rs = pc + 1 + arrow.end()
+        re_ = _type_end(m, rs)
+        cb = m.find("}", rs, re_)  # last field of a struct body without trailing comma
+        if cb >= 0:
+            re_ = cb
+        while re_ > rs and m[re_ - 1] in " \n\t":
+            re_ -= 1
+        ret = t[rs:re_].strip()
+        if len(params) > 1:
+            raise unsupported("unsupported construct: function-pointer type with %d parameters (R28p) in %s" % (len(params), what))
+        if params and re.match(r"(?:mut\s+)?[a-z_][A-Za-z0-9_]*\s*:(?!:)", params[0]):
+            raise unsupported("unsupported construct: function-pointer type with a named parameter (R28p) in %s" % what)
+        start, end = a, re_
+        if not params:
+            b = re.search(r"(?:std::boxed::)?Box\s*<\s*$", m[:a])
+            k = re_
+            while k < len(m) and m[k] in " \n\t":
+                k += 1
+            if b and k < len(m) and m[k] == ">":
+                start, end = b.start(), k + 1
+            new = "FnPtr0<%s>" % ret
+        else:
+            new = "FnPtr1<%s, %s>" % (params[0], ret)
+        t = t[:start] + new + t[end:]
+        n += 1
